@@ -93,6 +93,11 @@ func cleanupTie(d *scheduler.VerifState) bool {
 }
 
 func generate(r *rng.R, thorough bool, index int) *history {
+	// every third history concentrates on the hand-out policy: one
+	// predeclared queue with stickiness limits, few workers, many queued
+	// tasks of equal priority in sibling invocations, clock steps of the
+	// order of the stickiness windows
+	policy := index%3 == 2
 	h := &history{Cfg: genCfg(r)}
 	w := newWorld(h.Cfg)
 	defer w.ct.shutdown()
@@ -108,6 +113,9 @@ func generate(r *rng.R, thorough bool, index int) *history {
 		last = w.bq.VerifDump()
 	}
 	dt := func() int64 {
+		if policy && r.Chance(80) {
+			return int64(r.Intn(4))*sec + 1 + int64(r.Intn(1000))
+		}
 		switch x := r.Intn(100); {
 		case x < 70:
 			return 1 + int64(r.Intn(1000))
@@ -122,6 +130,9 @@ func generate(r *rng.R, thorough bool, index int) *history {
 	// platform queues
 	var pqs []genPQ
 	npre := r.Intn(3)
+	if policy {
+		npre = 1
+	}
 	prefixes := [][]uint64{{}, {1}, {1, 2}, {2}}
 	for i := 0; i < npre; i++ {
 		p := genPQ{prefix: prefixes[r.Intn(len(prefixes))], plat: uint64(r.Intn(2)), pre: true}
@@ -130,8 +141,13 @@ func generate(r *rng.R, thorough bool, index int) *history {
 			p.scs = append(p.scs, uint32(1+s*2+r.Intn(2)))
 		}
 		var limits []int64
-		for l := r.Intn(4); l > 0; l-- {
-			limits = append(limits, int64(r.Intn(20))*sec)
+		nl := r.Intn(4)
+		if policy {
+			nl = 2 + r.Intn(2)
+			p.scs = p.scs[:1]
+		}
+		for l := nl; l > 0; l-- {
+			limits = append(limits, int64(1+r.Intn(12))*sec)
 		}
 		dup := false
 		for _, q := range pqs {
@@ -148,9 +164,12 @@ func generate(r *rng.R, thorough bool, index int) *history {
 	// workers
 	var workers []workerJSON
 	nw := 1 + r.Intn(6)
+	if policy {
+		nw = 1 + r.Intn(2)
+	}
 	for i := 0; i < nw; i++ {
 		var sk skeyJSON
-		if len(pqs) > 0 && r.Chance(75) {
+		if len(pqs) > 0 && (policy || r.Chance(75)) {
 			p := pqs[r.Intn(len(pqs))]
 			sk = skeyJSON{Prefix: p.prefix, Plat: p.plat, SC: p.scs[r.Intn(len(p.scs))]}
 		} else {
@@ -245,10 +264,20 @@ func generate(r *rng.R, thorough bool, index int) *history {
 		case x < 55:
 			inst := instances[r.Intn(len(instances))]
 			dg := uint64(r.Intn(6))
+			if policy {
+				// route to the predeclared queue, distinct digests, equal priority
+				dg = uint64(r.Intn(32))*2 + pqs[0].plat%2
+				inst = append(append([]uint64{}, pqs[0].prefix...), instances[r.Intn(2)]...)
+			}
 			plat := dg % 2 // the platform is part of the action, hence a function of its digest
 			nsc := scsFor(inst, plat)
 			ex := &execScript{Inst: inst, Plat: plat, Digest: dg, DNC: r.Chance(20), Prio: priorities[r.Intn(len(priorities))],
 				Keys: keyPaths[r.Intn(len(keyPaths))], SelIdx: r.Intn(nsc), SelDur: int64(r.Intn(50)) * sec, SelTO: int64(1+r.Intn(100)) * sec}
+			if policy {
+				ex.Prio = 0
+				ex.DNC = false
+				ex.Keys = keyPaths[3+r.Intn(5)]
+			}
 			ex.Learner = genLearner(r, &learnerID, nsc, 0)
 			do(opJSON{K: "exec", C: newCall(), DT: dt(), Exec: ex})
 		case x < 80:
@@ -259,6 +288,9 @@ func generate(r *rng.R, thorough bool, index int) *history {
 			o := opJSON{K: "sync", C: newCall(), DT: dt(), W: &wk, Prefer: r.Chance(8)}
 			d, has := belief(wk)
 			y := r.Intn(100)
+			if policy && has {
+				y = r.Intn(45) // workers mostly finish their task and ask for the next one
+			}
 			switch {
 			case has && y < 45:
 				o.St, o.D, o.RTag = "done", d, respTag
